@@ -193,3 +193,23 @@ PROPS["C04"] = dict(
     level_note="'Exactly as configured' is read as iff for otherwise acceptable tokens; values between the lattice points are sampled.",
     design_ref="DESIGN.md section 7, C04",
 )
+
+
+PROPS["C19"] = dict(
+    level="model_checking", exhaustive=True,
+    stages=lambda tier, seed: [mc("progs", "MC_C19", "MC_C19_%s.cfg" % tier)],
+    rule="from MC_C19: all callback programs of up to 2 (quick) / 3 (thorough) steps over 16 header/claim steps "
+         "(delete exp/nbf/iss/aud, delete all claims, delete all headers, delete/replace header alg, replace exp/nbf "
+         "with passing or failing values, set/replace iss, add aud), plus control steps (return 1, select key and/or "
+         "alg, clear key) alone and combined with one edit; x 4 claim-check configurations x 10 tokens (passing and "
+         "failing each check, bad signature, unsigned, other key); every verify is repeated on an identically "
+         "configured checker without the callback and both verdicts are logged. distinct = distinct scripts.",
+    assumptions=ASSUME_COMMON,
+    level_text="Programs are enumerated exhaustively up to the bound by TLC; on the specification the verdict is a "
+               "function of the parsed token and the configuration after the callback, never of the callback's edits; "
+               "each program is executed against libjwt and the verdict with callback must equal the verdict without "
+               "it whenever the callback returns 0 and leaves key and alg alone; non-zero return must fail; selected "
+               "key/alg must pass the setkey table.",
+    level_note="Callback behaviours are programs over the public jwt_t API only (no raw memory writes).",
+    design_ref="DESIGN.md section 7, C19",
+)
